@@ -34,6 +34,7 @@ def run(chk):
     r5(chk, prog, m)
     r6(chk, prog, m)
     r7_structure(chk, prog, m)
+    r8_doubles(chk, prog, m)
     with chk.shared():
         c11.r7(chk, prog, prog.module("json_object.c"))   # shared: the sign-encoded string length is decoded before use
     chk.undecided_clauses += [
@@ -850,3 +851,97 @@ def r7_structure(chk, prog, m):
         else:
             chk.proven(rid, f.name, sig, f.entry.term.locstr(), "entry by entry on every scripted %s" % kind)
     chk.floor(rid, n, 15, "scripted containers copied")
+
+
+# ---------------------------------------------------------------------------
+# R8 doubles compare by IEEE value
+def r8_doubles(chk, prog, m):
+    import math
+    rid = "C09.R8"
+    chk.rule(rid, "two distinct double nodes are equal exactly when their values are IEEE-equal: json_object_equal evaluated on pairs "
+                  "from {1.0, 2.0, +0.0, -0.0, +inf, NaN} (equal values equal, +0.0 equals -0.0, a NaN equals no other node - not "
+                  "even another NaN)")
+    f = m.functions.get("json_object_equal")
+    chk.require(f is not None and not f.is_decl, "json_object_equal not found")
+    chk.touched(f)
+    names = m.struct_fields("%struct.json_object_double")
+    if not names or "c_double" not in names:
+        chk.undecided(rid, f.name, "doubles", f.entry.term.locstr(), "layout of struct json_object_double not found")
+        return
+    K = names.index("c_double")
+
+    def fcmp(pred, a, b):
+        un = math.isnan(a) or math.isnan(b)
+        base = {"eq": a == b, "ne": a != b, "gt": a > b, "ge": a >= b, "lt": a < b, "le": a <= b}
+        if pred == "ord":
+            return not un
+        if pred == "uno":
+            return un
+        if pred in ("true", "false"):
+            return pred == "true"
+        if pred[0] == "o":
+            return (not un) and base[pred[1:]]
+        return un or ((not un) and base[pred[1:]])
+
+    class DPE(pe.PE):
+        def should_inline(self, g, instr):
+            return g.internal
+
+        def init_mem(self, state, base, path, t):
+            if base not in ("d1", "d2"):
+                return pe.TOP
+            q = [x for x in path if x != ("i", 0)]
+            k = 0 if not q else (q[0] if isinstance(q[0], int) else q[0][2] if isinstance(q[0], tuple) and q[0][0] == "f" else None)
+            if not q:
+                return pe.C(TYPES["double"])
+            if k == K:
+                return ("c", self.vals[base])
+            return pe.TOP
+
+        def _simple(self, frame, i, state):
+            if i.op == "fcmp":
+                a, b = self.val(frame, i.ops[0], state), self.val(frame, i.ops[1], state)
+                if a[0] == "c" and b[0] == "c" and isinstance(a[1], float) and isinstance(b[1], float):
+                    frame.regs[i.res] = pe.C(int(fcmp(i.x.get("pred"), a[1], b[1])))
+                    return
+                self.unknown_fcmp = True
+            return super()._simple(frame, i, state)
+
+        def call_model(self, state, frame, i, args):
+            nm = i.callee or ""
+            if nm.startswith("llvm.") or nm in ("__assert_fail",):
+                return None
+            self.calls.append(nm)
+            return None
+    V = [1.0, 2.0, 0.0, -0.0, float("inf"), float("nan")]
+    bad = und = None
+    n = 0
+    for a in V:
+        for b in V:
+            h = DPE(prog, max_leaves=40, max_steps=10000)
+            h.vals = {"d1": a, "d2": b}
+            h.unknown_fcmp = False
+            h.calls = []
+            try:
+                leaves = h.run(f, [("ptr", "d1", ()), ("ptr", "d2", ())], pe.State())
+            except Exception as e:
+                und = und or "%r, %r: %s" % (a, b, e)
+                continue
+            n += 1
+            rets = [lf for lf in leaves if lf.kind == "ret"]
+            if h.unknown_fcmp or len(rets) != 1 or len(leaves) != 1 or rets[0].value is None or not pe.is_const(rets[0].value):
+                und = und or "%r against %r: the evaluation does not end in one concrete result%s" % (
+                    a, b, (" (calls: %s)" % ", ".join(sorted(set(h.calls)))) if h.calls else "")
+                continue
+            want = int((not math.isnan(a)) and (not math.isnan(b)) and a == b)
+            got = int(rets[0].value[1] != 0)
+            if got != want and bad is None:
+                bad = "two double nodes holding %r and %r compare %s; by IEEE value they are %s" % (
+                    a, b, "equal" if got else "unequal", "equal" if want else "unequal (a NaN equals only the identical node)")
+    if bad:
+        chk.refuted(rid, f.name, "doubles", f.entry.term.locstr(), bad)
+    elif und:
+        chk.undecided(rid, f.name, "doubles", f.entry.term.locstr(), und)
+    else:
+        chk.proven(rid, f.name, "doubles", f.entry.term.locstr(), "IEEE equality on %d pairs" % n)
+    chk.floor(rid, n, 20, "pairs of double values")
